@@ -330,21 +330,16 @@ impl Driver {
             key.as_raw() as u64,
             self.inner.submission().is_full() as u64,
         );
-        unsafe {
-            #[allow(clippy::useless_conversion)]
-            if self
-                .inner
-                .submission()
-                .push(
-                    &AsyncCancel::new(key.as_raw() as _)
-                        .build()
-                        .user_data(Self::CANCEL)
-                        .into(),
-                )
-                .is_err()
-            {
-                warn!("could not push AsyncCancel entry");
-            }
+        // Go through `push_raw` so that a full submission queue is submitted and
+        // retried instead of silently dropping the cancellation.
+        #[allow(clippy::useless_conversion)]
+        if let Err(e) = self.push_raw(
+            AsyncCancel::new(key.as_raw() as _)
+                .build()
+                .user_data(Self::CANCEL)
+                .into(),
+        ) {
+            warn!("could not push AsyncCancel entry: {e:?}");
         }
     }
 
